@@ -87,6 +87,20 @@ def render_literal(v):
     raise ValueError(v)
 
 
+NOT_OK_TAIL = 'Z'
+
+
+def has_not_ok_str(x):
+    """Does the abstract value / document contain a text that fails its pattern?"""
+    if isinstance(x, dict):
+        if x.get('k') == 'str' and x.get('ok') is False and x.get('len', 0) > 0:
+            return True
+        return any(has_not_ok_str(v) for v in x.values())
+    if isinstance(x, list):
+        return any(has_not_ok_str(v) for v in x)
+    return False
+
+
 def concrete_str(v):
     n = v['len']
     if n == 0:
@@ -99,7 +113,9 @@ def concrete_str(v):
     if n >= 3:
         s = s[0] + ' ' + s[2:]          # texts of three or more characters contain a space
     if not v['ok']:
-        s = s[:-1] + 'Z'
+        # a text that does not match the declared pattern: ends in a character outside it.  NOT_OK_TAIL is 'Z' or a
+        # line feed (a full match followed by a single line feed is still not a match of the whole text)
+        s = s[:-1] + NOT_OK_TAIL
     return s
 
 
